@@ -875,3 +875,16 @@ package actor
 //@   ghost at call Get#1 before: assert[C08.child.looks-up-own-children] arg0 == c.children && arg1 == id
 //@   ghost at call Get#1: found = result0; ok = result1
 //@   ghost at return#1: assert[C08.child.returns-the-entry] result == found
+
+// PID.LookupKey hashes the concatenation of address and id. hk names the hash
+// of a byte string; it is assumed collision-free (hkinv). Nothing is assumed
+// about the concatenation itself: ("h:40","00/x") and ("h:4000","/x") give the
+// same string.
+//@ ghost func hk(Str) Int
+//@ ghost func hkinv(Int) Str
+//@ axiom[hk.collision-free] forallS("Str", s, hkinv(hk(s)) == s, hk(s))
+
+//@ func (*PID).LookupKey()
+//@   trusted
+//@   pure
+//@   ensures result == hk(pid.Address + pid.ID)
